@@ -132,6 +132,44 @@ theorem runCmd_isSome_iff (names pw dw sw : List Str) (fmt : DestFmt) (enc : Opt
     | none => rfl
     | some io => rfl
 
+/-! ### `--markov` and the other two commands -/
+
+theorem markovOf_absent : markovOf none = some none := rfl
+
+/-- `--markov` without `v` / `h`: the documented defaults v 1, h 2 -/
+theorem markovOf_defaults : markovOf (some []) = some (some { v := 1, h := 2, nofanout := false }) := rfl
+
+example : (markovOf (some ["h:3".toList, "nofanout:0".toList, "h:1".toList])).map (·.map fun m => (m.v, m.h, m.nofanout)) =
+    some (some (1, 1, true)) := by decide +kernel
+example : (markovOf (some ["v:many".toList])).isNone = true := by decide +kernel
+
+/-- when the model answers, `nofanout` is on iff some word has that key -/
+theorem markovOf_nofanout (ws : List Str) (mo : MarkovOpts) (h : markovOf (some ws) = some (some mo)) :
+    mo.nofanout = true ↔ ∃ w ∈ ws, (parseOption w).1 = "nofanout".toList := by
+  rw [← has_iff]
+  simp only [markovOf] at h
+  split at h
+  · simp only [Option.some.injEq] at h
+    rw [← h]; rfl
+  · exact absurd h (by simp)
+
+/-- for TYPE `treebank` the `--markov` words do not matter (no binarization happens) -/
+theorem runGrammarCmd_treebank (mw : Option (List Str)) (mo : Option MarkovOpts) (hm : markovOf mw = some mo) (sw : List Str)
+    (src : Source) : runGrammarCmd .treebank mw sw src = runGrammarCmd .treebank none sw src := by
+  simp only [runGrammarCmd, hm, markovOf_absent]
+  cases inOptsOf (optionsDict sw) with
+  | none => rfl
+  | some io =>
+    simp only [runGrammarSrc, runGrammarFrom]
+
+/-- `transitions`: on the words on which the model answers the command is `runTransitions` on the steps of the names, with
+    `pos` iff some `--dest-opts` word has that key -/
+theorem runTransitionsCmd_eq (names pw dw sw : List Str) (sys : TransSys) (src : Source) (steps : List Step) (io : InOpts)
+    (h1 : stepsOf names pw = some steps) (h2 : inOptsOf (optionsDict sw) = some io) :
+    ∃ pos : Bool, (pos = true ↔ ∃ w ∈ dw, (parseOption w).1 = "pos".toList) ∧
+      runTransitionsCmd names pw sys dw sw src = some (runTransitions steps sys pos (readSrc io src)) :=
+  ⟨(optLookup (optionsDict dw) "pos".toList).isSome, has_iff dw _, by simp only [runTransitionsCmd, h1, h2]; rfl⟩
+
 /-- closed instances: the order of the names is the order of the steps; one dict for all; an unknown name, a terminal-file
     transformation and an unusable value are outside the model -/
 example : (stepsOf ["negra_mark_heads".toList, "binarize".toList] ["quiet".toList, "bare_bin_labels:0".toList]).map List.length = some 2 := by
